@@ -179,7 +179,12 @@ def handler : Handler St where
       (s, judge ans (some s!"{n}:{boolStr (Model.Csm.isEmpty s.table)}") (some s!"{sn}:{boolStr (sn == 0)}"))
     | "evals" =>
       let k := natArg args 0
-      let d := (args.getD 1 "0").toInt?.getD 0
+      -- `nan`/`inf`/`-inf`: the value the harness' causal functions decode (`obs as i64`: NaN ↦ 0, ±∞ saturate)
+      let d : Int := match args.getD 1 "0" with
+        | "nan" => 0
+        | "inf" => 9223372036854775807
+        | "-inf" => -9223372036854775808
+        | x => x.toInt?.getD 0
       let mo := (Model.Csm.step key s.table (.evalSingle env k d)).2
       let so := (Spec.Csm.step key s.map (.evalSingle env k d)).2
       ({ s with counts := bump s.counts mo.fired, scounts := bump s.scounts so.fired }, judge ans (some (renderOut mo)) (some (renderOut so)))
